@@ -176,6 +176,26 @@ EXTRA_SETS: Dict[str, Dict[str, str]] = {
         "rcx_shared.proto": _P3 + "package vfrare.shared;\nmessage Shared { int32 n = 1; }\n",
         "rcx_user.proto": _P3 + 'package vfrare.user;\nimport "rcx_misc.proto";\nmessage U { vfrare.misc.M m = 1; vfrare.shared.Shared via_public_import = 2; vfrare.misc.M.E e = 3; }\n',
     },
+    # ONE package spread over several files where only some files use typing constructs (List / Dict / Optional) and the file
+    # protoc lists last uses none, or only the last one does; no service in these packages
+    "split_package_typing": {
+        "sp_a.proto": _P3 + "package vfsplit.p;\nmessage A { repeated int32 r = 1; map<string, int32> m = 2; }\n",
+        "sp_m.proto": _P3 + 'package vfsplit.p;\nimport "sp_a.proto";\nmessage M { optional int32 o = 1; A a = 2; }\n',
+        "sp_z.proto": _P3 + "package vfsplit.p;\nmessage Z { int32 x = 1; string s = 2; }\n",
+        "sq_a.proto": _P3 + "package vfsplit.q;\nmessage A { int32 x = 1; }\n",
+        "sq_z.proto": _P3 + 'package vfsplit.q;\nimport "sq_a.proto";\nmessage Z { repeated A r = 1; map<int32, A> m = 2; optional string o = 3; }\n',
+    },
+    # a type of another package that is visible only through `import public` of a file of the REFERENCING package itself
+    # (the referencing file imports nothing from any other package); in the second pair the referencing package also has a
+    # message of the same short name
+    "public_import_same_package": {
+        "pi_c.proto": _P3 + "package vfpub.c;\nmessage CMsg { int32 x = 1; message In { string s = 1; } In inner = 2; }\nenum CKind { C_KIND_ZERO = 0; C_KIND_ONE = 1; }\n",
+        "pi_h_pub.proto": _P3 + 'package vfpub.h;\nimport public "pi_c.proto";\nmessage Bridge { int32 b = 1; }\n',
+        "pi_h_use.proto": _P3 + 'package vfpub.h;\nimport "pi_h_pub.proto";\nmessage User { vfpub.c.CMsg c = 1; repeated vfpub.c.CMsg cs = 2; map<string, vfpub.c.CMsg> cm = 3; '
+                          "oneof pick { vfpub.c.CMsg pc = 4; int32 n = 5; } optional vfpub.c.CMsg oc = 6; vfpub.c.CMsg.In ci = 7; vfpub.c.CKind ck = 8; Bridge br = 9; }\n",
+        "pi_k_pub.proto": _P3 + 'package vfpub.k;\nimport public "pi_c.proto";\nmessage CMsg { string own = 1; }\n',
+        "pi_k_use.proto": _P3 + 'package vfpub.k;\nimport "pi_k_pub.proto";\nmessage User { vfpub.c.CMsg theirs = 1; CMsg ours = 2; repeated vfpub.c.CMsg many = 3; }\n',
+    },
     # package names that are string prefixes of each other without being parent and child
     "prefix_packages": {
         "pp_cart.proto": _P3 + 'package vfshop2.cart;\nimport "pp_cartoon.proto";\nimport "pp_cartoon_types.proto";\nmessage Cart { vfshop2.cartoon.Toon toon = 1; '
